@@ -163,6 +163,23 @@ fn scripts_strategy(max_threads: usize, max_ops: usize, cap: u8) -> BoxedStrateg
     (prefill, proptest::collection::vec(thread, 2..=max_threads)).boxed()
 }
 
+/// structure-aware decoding of fuzzer bytes into a case of `case_strategy`'s domain
+pub fn decode_case(u: &mut arbitrary::Unstructured<'_>, kinds: &'static [Kind], caps: &'static [u8], max_threads: usize, max_ops: usize, origins: bool) -> Option<Case> {
+    let b = |u: &mut arbitrary::Unstructured<'_>| -> u8 { u.arbitrary::<u8>().unwrap_or(0) };
+    let kind = kinds[b(u) as usize % kinds.len()];
+    let cap = caps[b(u) as usize % caps.len()];
+    let origin = if origins { let x = b(u); if x < 150 { 0 } else { u32::MAX - (x as u32 % 24) } } else { 0 };
+    let prefill = match b(u) % 4 { 0 => 0, 1 => 1, 2 => cap - 1, _ => cap };
+    let n = 2 + b(u) as usize % (max_threads - 1);
+    let threads: Vec<Vec<Step>> = (0..n).map(|_| { let k = 1 + b(u) as usize % max_ops; (0..k).map(|_| if b(u) & 1 == 0 { Step::Put } else { Step::Get }).collect() }).collect();
+    let schedule = match b(u) % 8 {
+        0..=3 => { let k = b(u) % 8; let mut step = 0u32; Schedule::Sparse((0..k).map(|_| { step += b(u) as u32 % 24 + 1; (step, b(u) % n as u8) }).collect()) },
+        4 | 5 => Schedule::Pct { seed: u.arbitrary::<u64>().unwrap_or(1), depth: 1 + b(u) % 4, est_len: threads.iter().map(|t| t.len() as u32 * 8).sum::<u32>() + 8 },
+        _ => Schedule::Random { seed: u.arbitrary::<u64>().unwrap_or(1), per_1024: [64u16, 200, 500][b(u) as usize % 3] },
+    };
+    Some(Case { kind, cap, origin, prefill, threads, schedule })
+}
+
 pub fn case_strategy(kinds: &'static [Kind], caps: &'static [u8], max_threads: usize, max_ops: usize, origins: bool) -> BoxedStrategy<Case> {
     (any::<u16>(), any::<u16>())
         .prop_flat_map(move |(ki, ci)| {
@@ -416,6 +433,7 @@ impl Property for Rings {
     type Case = Case;
     fn part(&self) -> &'static str { "rings-sched" }
     fn strategy(&self, _tier: Tier) -> BoxedStrategy<Case> { case_strategy(&RING_KINDS, &RING_CAPS, 4, 3, true) }
+    fn decode(&self, u: &mut arbitrary::Unstructured<'_>) -> Option<Case> { decode_case(u, &RING_KINDS, &RING_CAPS, 4, 3, true) }
     fn cases(&self, tier: Tier) -> u32 { match tier { Tier::Quick => 6_000, Tier::Thorough => 150_000 } }
     fn run(&self, case: &Case) -> RunReport { report(case) }
     fn rule(&self) -> String {
@@ -435,6 +453,7 @@ impl Property for Standalone {
     type Case = Case;
     fn part(&self) -> &'static str { "standalone-sched" }
     fn strategy(&self, _tier: Tier) -> BoxedStrategy<Case> { case_strategy(&SA_KINDS, &SA_CAPS, 4, 4, false) }
+    fn decode(&self, u: &mut arbitrary::Unstructured<'_>) -> Option<Case> { decode_case(u, &SA_KINDS, &SA_CAPS, 4, 4, false) }
     fn cases(&self, tier: Tier) -> u32 { match tier { Tier::Quick => 6_000, Tier::Thorough => 150_000 } }
     fn run(&self, case: &Case) -> RunReport { report(case) }
     fn rule(&self) -> String {
